@@ -22,13 +22,25 @@ RULE = ('one case = one public call (estimator function or analyzer attribute) r
         'outside the grid, inverted lb>ub, degenerate} STRATIFIED by the case index; (2) every two-sided site at N in {49,61,98,103,121,122} x '
         'Fs in {1, 2pi, 1000} and a sweep N = 2..131 (thorough: ..400) of periodogram / periodogram_csd / get_freqs, on every seed; (3) re-targeted '
         'analyzers: every analyzer x {set_input, parameters + reset(), both} x what was read on the first input {freq, spec, both orders} x read '
-        'order after re-targeting {frequencies first, spectrum first}, judged against a fresh analyzer and the true grid. '
+        'order after re-targeting {frequencies first, spectrum first}, judged against a fresh analyzer and the true grid (the vector handed out '
+        'on the first input is kept and must read the same at the end); (4) read histories of ONE analyzer: every analyzer x every OTHER result '
+        'its class offers (one-time attributes / properties found by introspection of the live class) x {hand out the frequencies, read the other, '
+        'hand out again | the other first}, plus all other results in a drawn order, plus that followed by reset() and a second round; banded '
+        'analyzers once with the DC bin in the band and once with a stratified band; every vector handed out is kept and inspected AT THE END; '
+        '(5) several LIVE analyzers: every ordered pair of {Coherence, SparseCoherence, SeedCoherence, Spectral (psd / cpsd / both orders)} '
+        '(thorough: also triples) on inputs of different rates and units x method dict {one caller dict for all, an equal dict each, method=None, no method argument at all (a mutable default), '
+        'for all, dict for the first + None} x event order {build both then read B,A | A,B | read each before the next is built, re-read at the '
+        'end}: each read must be the reader\'s OWN input\'s grid; a failure under one shared caller dict that disappears with an equal dict each '
+        'is the recorded finding, everything else a violation. '
         'distinct = distinct protocol line (site, Fs, N, band); non-trivial = N >= 3')
 ASSUMPTIONS = ['Fs > 0 finite; N >= 2; the frequency vector is compared with the exact rational grid at 4 ulp per entry',
                'np.pi is represented in the exact runs by a 40-digit rational (theorems hold for any value of pi)',
                'mlab.psd/csd frequency vector = k*Fs/NFFT (contract, monitored: the Welch paths are compared with the true grid by the oracle on every run)',
                'analyzer cases use sampling intervals whose rate 1e12/dt_ps is an exactly representable double, or sampling_rate= given directly']
 TRUSTED_EXTRA = ['harness/translate_c05.py: AST -> GridExpr for each site (echoed in the evidence); which expression of a function is "the" frequency vector is fixed there',
+                 'harness/translate_c05.py gen_methods: what each analyzer constructor stores in self.method (dict display for None, the caller\'s object or a copy, Fs fill) -> Generated/Methods.lean; '
+                 'the Fs reads/writes of the frequency getters in Nitime/Model/C05Hist.lean (Two.step: freq, cpsd) are transcribed by hand and monitored by the `two` correspondence',
+                 'Nitime/Model/C05Hist.lean Hist: getters allocate their result and never write into an existing array (the intended behaviour; an implementation that does is reported by the `hist` correspondence and the oracle)',
                  'numpy semantics of linspace / rfftfreq / arange / searchsorted as written in Nitime/Model/C05Grid.lean (checked against numpy on every run by the correspondence)',
                  'float evaluation of the grid formulas is not modelled: exact rational value vs float vector at 4 ulp',
                  'sinusoid_peak_bin is stated for the mathematical DFT (primitive root of unity); that fftpack.fft is that DFT is checked only by the on-bin oracle runs']
@@ -162,6 +174,8 @@ def opt(m, k):
 
 def run_call(m):
     """returns (f vector or index list, spectrum or None) from the REAL implementation"""
+    if m.get('call') == 'two':
+        return run_two(m)
     import nitime.algorithms as tsa
     import nitime.utils as utils
     import nitime.analysis as an
@@ -205,6 +219,8 @@ def run_call(m):
     # ---- analyzers
     if m.get('rt'):
         return run_retarget(m)
+    if m.get('hist'):
+        return run_history(m)
     A = an_build(name, m)
     f, spec = an_freq(name, A, m)
     return f, spec, None, None
@@ -362,22 +378,224 @@ def run_retarget(m):
         else:
             mA[k] = v
     A = an_build(name, mA)
+    held = []                               # (object handed out on the first input, its content then)
     if rt['pre'] in ('freq', 'both'):
-        an_freq(name, A, mA)
+        held.append(an_freq(name, A, mA)[0])
     if rt['pre'] in ('spec', 'both'):
         an_spec(name, A)
     if rt['pre'] == 'both-rev':
         an_spec(name, A)
-        an_freq(name, A, mA)
+        held.append(an_freq(name, A, mA)[0])
+    held = [(h, snapshot(h)) for h in held]
     an_retarget(name, A, mB, rt['how'])
     if rt['order'] == 'spec-first':
         an_spec(name, A)
     f, spec = an_freq(name, A, mB)
     ff, _ = an_freq(name, an_build(name, mB), mB)
-    return f, spec, None, ff
+    changed = [(snap, snapshot(h)) for h, snap in held if not same_vec(snap, snapshot(h))]
+    return f, spec, None, ff, changed
+
+
+
+# ------------------------------------------------------------------ read histories of ONE analyzer
+FREQ_ATTR = {'SpectralAnalyzer.psd': 'psd', 'SpectralAnalyzer.cpsd': 'cpsd', 'SpectralAnalyzer.periodogram': 'periodogram',
+             'SpectralAnalyzer.spectrum_fourier': 'spectrum_fourier', 'SpectralAnalyzer.spectrum_multi_taper': 'spectrum_multi_taper',
+             'FilterAnalyzer.filtered_fourier': 'filtered_fourier', 'SNRAnalyzer.mt_frequencies': 'mt_frequencies'}
+
+
+def freq_attr(name):
+    return FREQ_ATTR.get(name.split('/')[0], 'frequencies')
+
+
+def snapshot(v):
+    if isinstance(v, list):
+        return list(v)
+    return np.array(v, dtype=float, copy=True).reshape(-1)
+
+
+def same_vec(a, b):
+    if isinstance(a, list) or isinstance(b, list):
+        return list(a) == list(b)
+    return a.shape == b.shape and bool(np.array_equal(a, b, equal_nan=True))
+
+
+def result_names(A):
+    """every result the analyzer object offers (one-time attributes and properties of its classes), found by
+    introspection of the LIVE class, so that a result added or rewritten later is exercised too"""
+    out = []
+    for k in type(A).__mro__:
+        for n, v in vars(k).items():
+            if type(v).__name__ in ('OneTimeProperty', 'property') and not n.startswith('_') \
+                    and n not in ('parameterlist', 'parameters') and n not in out:
+                out.append(n)
+    return out
+
+
+def other_results(name):
+    """names of the results, other than the frequency attribute of call `name`, of that analyzer class"""
+    m = {'call': name, 'n': 40, 'N': 8, 'Fs': f2x(1.0), 'dseed': 0, 'unit': 's'}
+    if name in COMPLEX_CALLS:
+        m['complex'] = True
+    if name in N_IS_LENGTH:
+        m['N'] = 40
+    A = an_build(name, m)
+    return [n for n in result_names(A) if n != freq_attr(name)]
+
+
+def run_history(m):
+    """one analyzer, a history of reads.  events: F = read the frequency attribute and KEEP the object,
+    O = read the other result(s) named in m['hist']['other'], R = reset().  Returns the last frequency read,
+    plus for every F: the content at hand-out time and the content of the SAME object at the end."""
+    name, h = m['call'], m['hist']
+    A = an_build(name, m)
+    fa = freq_attr(name)
+    held, ev_seen, errs = [], '', []
+    f = spec = None
+    for ev in h['events']:
+        if ev == 'F':
+            f, spec = an_freq(name, A, m)
+            held.append((f, snapshot(f)))
+            ev_seen += 'F'
+        elif ev == 'O':
+            for o in h['other']:
+                fired = fa in vars(A)
+                try:
+                    getattr(A, o)
+                except Exception as e:  # noqa -- a result that cannot be computed on this input is not C05's matter
+                    errs.append('%s: %s' % (o, err_kind(e)))
+                ev_seen += 'D' if (fa in vars(A)) and not fired else 'O'
+        elif ev == 'R':
+            A.reset()
+            ev_seen += 'R'
+    views = [(snap, snapshot(obj)) for obj, snap in held]
+    return f, spec, None, None, None, {'views': views, 'events': ev_seen, 'errors': errs}
+
+
+# ------------------------------------------------------------------ several live analyzers, one or several method dicts
+TWO_CLS = {'C': 'CoherenceAnalyzer', 'P': 'SparseCoherenceAnalyzer', 'E': 'SeedCoherenceAnalyzer', 'S': 'SpectralAnalyzer'}
+
+
+OMITTED = 'omitted'          # the `method` argument is left out (not the same as method=None: a mutable default argument)
+
+
+def two_build(c, T, method):
+    import nitime.analysis as an
+    kw = {} if method is OMITTED else {'method': method}
+    if c == 'C':
+        return an.CoherenceAnalyzer(T, **kw)
+    if c == 'P':
+        return an.SparseCoherenceAnalyzer(T, ij=[(0, 1)], **kw)
+    if c == 'E':
+        return an.SeedCoherenceAnalyzer(T, T, **kw)
+    return an.SpectralAnalyzer(T, **kw)
+
+
+def two_dicts(m, mode=None):
+    """the method argument of each analyzer: 'shared' = ONE caller's dict for all, 'own' = an equal dict each,
+    'none' = method=None, 'omitted' = the argument is left out; 'mixed' = the first one gets a caller's dict, the others None"""
+    mode = mode or m['mode']
+    N = m['N']
+    mk = lambda: {'this_method': 'welch', 'NFFT': N, 'n_overlap': N // 2}
+    k = len(m['ans'])
+    if mode == 'shared':
+        d = mk()
+        return [d] * k
+    if mode == 'own':
+        return [mk() for _ in range(k)]
+    if mode == 'mixed':
+        return [mk()] + [None] * (k - 1)
+    if mode == 'omitted':
+        return [OMITTED] * k
+    return [None] * k
+
+
+def run_two(m, mode=None):
+    """events: n<k> construct analyzer k, f<k> read its frequencies (SpectralAnalyzer: psd[0]), c<k> read cpsd[0].
+    Returns [(k, object handed out, its content then, its content at the end)]"""
+    dicts = two_dicts(m, mode)
+    ans, reads = {}, []
+    for ev in m['events']:
+        k = int(ev[1:])
+        a = m['ans'][k]
+        if ev[0] == 'n':
+            ans[k] = two_build(a['cls'], mk_ts(a, data_for(a)), dicts[k])
+        elif ev[0] == 'f':
+            v = ans[k].psd[0] if a['cls'] == 'S' else ans[k].frequencies
+            reads.append((k, v, snapshot(v)))
+        elif ev[0] == 'c':
+            v = ans[k].cpsd[0]
+            reads.append((k, v, snapshot(v)))
+    return [(k, snap, snapshot(v)) for k, v, snap in reads]
+
+
+def two_line(m):
+    toks, mode = [], m['mode']
+    if mode in ('shared', 'mixed'):
+        toks.append('u')
+    elif mode == 'own':
+        toks += ['u'] * len(m['ans'])
+    for ev in m['events']:
+        k = int(ev[1:])
+        if ev[0] == 'n':
+            d = {'shared': '0', 'own': str(k), 'none': '-', 'omitted': '-', 'mixed': '0' if k == 0 else '-'}[mode]
+            toks.append('n%s:%s:%s' % (m['ans'][k]['cls'], f2x(float(fs_true(m['ans'][k]))), d))
+        else:
+            toks.append(ev)
+    return 'C05 two %d %s' % (m['N'], ' '.join(toks))
+
+
+def two_pair(m):
+    return '-'.join(TWO_CLS[a['cls']] for a in m['ans'])
+
+
+def judge_two(m, res):
+    pre = 'two-analyzers/%s/%s' % ({'shared': 'shared-user-method-dict', 'own': 'own-method-dict', 'none': 'method-none',
+                                    'omitted': 'method-omitted', 'mixed': 'user-dict-and-none'}[m['mode']], two_pair(m))
+    if isinstance(res, str):
+        return [(pre + '/raises', 'analyzers %s, events %s: %s' % (two_pair(m), ' '.join(m['events']), res))]
+    N, out = m['N'], []
+
+    def wrong(reads):
+        bad = []
+        for k, snap, end in reads:
+            want = [Fr(j) * fs_true(m['ans'][k]) / N for j in range(N // 2 + 1)]
+            if len(snap) != len(want) or not close4([float(x) for x in snap], want):
+                bad.append((k, snap, want))
+        return bad
+    bad = wrong(res)
+    if bad:
+        k, snap, want = bad[0]
+        what = ('%s built in this order on inputs of %s Hz (%s; events %s): analyzer %d (%s, %s Hz) reports frequencies %s…%s, its own grid k*Fs/%d is %s…%s' % (
+            two_pair(m), [str(fs_true(a)) for a in m['ans']],
+            {'shared': 'ONE caller-supplied method dict given to all', 'own': 'an equal method dict each', 'none': 'all with method=None',
+             'omitted': 'all without a method argument',
+             'mixed': 'first with a method dict, the others method=None'}[m['mode']], ' '.join(m['events']), k, TWO_CLS[m['ans'][k]['cls']],
+            fs_true(m['ans'][k]), [float(x) for x in snap[:3]], float(snap[-1]) if len(snap) else None, N,
+            [float(q) for q in want[:3]], float(want[-1])))
+        sym = 'grid'
+        if m['mode'] == 'shared':
+            # is the failure explained by the SHARED caller's dict?  the same experiment with an equal dict for each analyzer
+            try:
+                own_bad = wrong(run_two(m, 'own'))
+            except Exception as e:  # noqa
+                own_bad = [err_kind(e)]
+            if own_bad:
+                sym = 'grid-also-with-own-dicts'
+        out.append(('%s/%s' % (pre, sym), what))
+    for k, snap, end in res:
+        if not same_vec(snap, end):
+            out.append((pre + '/handed-out-vector-changed', 'analyzer %d (%s): the frequency vector it handed out read %s… and reads %s… after the later events (%s)' % (
+                k, TWO_CLS[m['ans'][k]['cls']], [float(x) for x in snap[:4]], [float(x) for x in end[:4]], ' '.join(m['events']))))
+            break
+    return out
 
 
 def model_line(m):
+    if m.get('call') == 'two':
+        return two_line(m)
+    if m.get('hist'):
+        mm = {k: v for k, v in m.items() if k != 'hist'}
+        return 'C05 hist %s %s' % (m['hist'].get('seen') or m['hist']['events'], model_line(mm)[4:])
     site, kind = CALLS[m['call']]
     Fs, N = m['Fs'], m['N']
     if kind == 'keep':
@@ -420,13 +638,42 @@ def parity(m):
     return 'odd' if m['N'] % 2 else 'even'
 
 
+def hist_label(m):
+    h = m['hist']
+    return '%s/history/%s/%s' % (m['call'], h['events'], h.get('label') or '+'.join(h['other']))
+
+
 def judge(m, res):
     """independent oracle on one call: list of (key, what)"""
+    if m.get('call') == 'two':
+        return judge_two(m, res)
+    if m.get('hist') and not isinstance(res, str):
+        # every vector handed out during the history must show the true grid AT THE END (the last one is res[0] itself)
+        pre = hist_label(m)
+        mm = {k: v for k, v in m.items() if k != 'hist'}
+        out, info = [], res[5]
+        for i, (snap, end) in enumerate(info['views']):
+            js = judge_one(mm, (end, res[1] if i == len(info['views']) - 1 else None, None, None), pre)
+            for key, what in js:
+                if key not in [k for k, _ in out]:
+                    out.append((key, 'history %s (other results read: %s; as observed %s): vector handed out at read #%d, inspected at the end: %s' % (
+                        m['hist']['events'], ','.join(m['hist']['other']), info['events'], i + 1, what)))
+            if not same_vec(snap, end) and pre + '/handed-out-vector-changed' not in [k for k, _ in out]:
+                out.append((pre + '/handed-out-vector-changed', '%s: the vector handed out at read #%d of history %s (other results: %s) read %s… then and reads %s… at the end' % (
+                    m['call'], i + 1, m['hist']['events'], ','.join(m['hist']['other']), [float(x) for x in snap[:4]], [float(x) for x in end[:4]])))
+        return out
+    return judge_one(m, res)
+
+
+def judge_one(m, res, pre=None):
     name = m['call']
     kind = CALLS[name][1]
-    pre = '%s/%s' % (name, parity(m))
-    if m.get('rt'):
-        pre = '%s/retarget/%s/%s' % (name, m['rt']['how'], m['rt']['order'])
+    if pre is None:
+        pre = '%s/%s' % (name, parity(m))
+        if m.get('rt'):
+            pre = '%s/retarget/%s/%s' % (name, m['rt']['how'], m['rt']['order'])
+        if m.get('hist'):
+            pre = hist_label(m)
     out = []
     if isinstance(res, str):
         return [(pre + '/raises', '%s raised %s for Fs=%r N=%d' % (name, res, x2f(m['Fs']), m['N']))]
@@ -441,6 +688,10 @@ def judge(m, res):
             out.append((pre + '/stale-axis', '%s: analyzer built for %s, read (%s), re-targeted by %s, then read %s reports %s%s; a fresh analyzer on the new state reports %s%s' % (
                 name, {k: (x2f(v) if isinstance(v, str) and v.startswith('x') else v) for k, v in rt['A'].items()}, rt['pre'], rt['how'], rt['order'],
                 a[:5], '…' if len(a) > 5 else '', b[:5], '…' if len(b) > 5 else '')))
+    if m.get('rt') and len(res) > 4 and res[4]:
+        snap, end = res[4][0]
+        out.append((pre + '/handed-out-vector-changed', '%s: the frequency vector handed out on the first input read %s… and reads %s… after re-targeting (%s) and reading again' % (
+            name, [float(x) for x in snap[:4]], [float(x) for x in end[:4]], m['rt']['how'])))
     if len(res) > 2 and res[2] is not None and res[2] != len(want):
         out.append((pre + '/band-width', '%s caches %d bins, %d bins have lb <= k*Fs/N <= ub (Fs=%s N=%d lb=%s ub=%s)' % (
             name, res[2], len(want), fs_true(m), m['N'], opt(m, 'lb'), opt(m, 'ub'))))
@@ -456,7 +707,7 @@ def judge(m, res):
         out.append(('%s/%s' % (pre, sym), '%s returns %d frequencies %s, expected %d: %s (Fs=%s N=%d lb=%s ub=%s)' % (
             name, len(fl), fl[:6], len(want), [float(q) for q in want[:6]], fs_true(m), m['N'], opt(m, 'lb'), opt(m, 'ub'))))
     elif not close4(fl, want, cancel=(kind == 'shift')):
-        bad = [i for i, (a, q) in enumerate(zip(fl, want)) if abs(Fr(a) - q) > Fr(4 * ulp(max(abs(a), abs(float(q)))))]
+        bad = [i for i, (a, q) in enumerate(zip(fl, want)) if not math.isfinite(a) or abs(Fr(a) - q) > Fr(4 * ulp(max(abs(a), abs(float(q)))))]
         i = bad[0] if bad else 0
         sym = 'grid'
         if kind == 'freqz':
@@ -491,7 +742,7 @@ def judge(m, res):
             elif kind == 'two' and not m.get('complex'):
                 targets.append(Fr(N - k0) * Fs / N)          # a real sinusoid has its mirror peak at N-k0
             slack = Fr(4 * ulp(float(Fs))) if kind == 'shift' else 0
-            if not any(abs(Fr(fl[j]) - t) <= Fr(4 * ulp(max(abs(fl[j]), abs(float(t))))) + slack for t in targets):
+            if not math.isfinite(fl[j]) or not any(abs(Fr(fl[j]) - t) <= Fr(4 * ulp(max(abs(fl[j]), abs(float(t))))) + slack for t in targets):
                 out.append((pre + '/peak', '%s: sinusoid on bin %d of %d (true %r Hz) peaks at reported %r Hz' % (name, k0, N, float(targets[0]), fl[j])))
     return out
 
@@ -635,12 +886,42 @@ class _C(Case):
     __slots__ = ('_res',)
 
 
+def cmp_parts(kind):
+    """`;`-separated vectors (one per hand-out / read), each compared like a single grid"""
+    one = cmp_grid(kind == 'shift')
+
+    def cmp(impl, model):
+        if impl.startswith('err') or model.startswith('bad') or model.startswith('no-such') or model == 'unsupported':
+            return impl == model
+        a, b = impl.split(';'), model.split(';')
+        if len(a) != len(b):
+            return False
+        if kind == 'keep':
+            return a == b
+        return all(x == y if (x == 'none' or y == 'none') else one(x, y) for x, y in zip(a, b))
+    return cmp
+
+
 def make_case(m):
     try:
         res = run_call(m)
     except Exception as e:  # noqa
         res = 'err ' + err_kind(e)
+    if m.get('call') == 'two':
+        impl = res if isinstance(res, str) else (';'.join(flist(end) for k, snap, end in res) or 'none')
+        c = _C(model_line(m), impl, 'two-analyzers/' + m['mode'], cmp=cmp_parts('one'), meta=m, nontrivial=True)
+        c._res = res
+        return c
     kind = CALLS[m['call']][1]
+    if m.get('hist'):
+        if isinstance(res, str):
+            impl = res
+        else:
+            m['hist']['seen'] = res[5]['events']
+            impl = ';'.join((ilist(end) if kind == 'keep' else flist(end)) for snap, end in res[5]['views']) or 'none'
+        c = _C(model_line(m), impl, m['call'] + '/history', cmp=cmp_parts(kind), meta=m, nontrivial=m['N'] >= 3)
+        c._res = res
+        return c
     if isinstance(res, str):
         impl = res
     elif kind == 'keep':
@@ -701,6 +982,78 @@ def gen_retarget(rng, name, tier, how, pre, order, idx):
     return m
 
 
+
+_OTHERS = {}
+
+
+def others_of(name):
+    if name not in _OTHERS:
+        _OTHERS[name] = other_results(name)
+    return _OTHERS[name]
+
+
+HIST_EVENTS = ('FOF', 'OF')          # hand out, read another result, hand out again / the other result first
+
+
+def gen_history(rng, name, tier, events, other, idx, dc):
+    """an ordinary call description + a read history.  `other`: one result name, or 'ALL' (every other result of the
+    class, in a drawn order).  dc: the band (if the call has one) starts at 0 Hz, so that the DC bin is in the vector."""
+    m = gen_meta(rng, name, tier, idx)
+    for k in ('retarget', 'k0', 'centroid'):
+        m.pop(k, None)
+    if name in BANDED and m.get('lb') is not None and m.get('ub') is not None and x2f(m['lb']) > x2f(m['ub']):
+        m['lb'], m['ub'] = m['ub'], m['lb']
+    if dc and (name in BANDED or CALLS[name][1] == 'keep'):
+        m.pop('lb', None)
+        if m.get('ub') is not None and x2f(m['ub']) < 0:
+            m.pop('ub')
+    if other == 'ALL':
+        o = list(others_of(name))
+        rng.shuffle(o)
+        m['hist'] = {'events': events, 'other': o, 'label': 'all'}
+    else:
+        m['hist'] = {'events': events, 'other': [other]}
+    return m
+
+
+TWO_MODES = ('shared', 'none', 'omitted', 'own', 'mixed')
+TWO_PATTERNS = ('ab-BA', 'ab-AB', 'aAbB')
+
+
+def gen_two(rng, tier, mode, classes, pattern, idx):
+    """several live analyzers on inputs of DIFFERENT rates / units; mode = how they get their method dict"""
+    N = 64 if mode in ('none', 'omitted', 'mixed') else rng.randint(4, 24)
+    if mode not in ('none', 'omitted', 'mixed'):
+        N = (N | 1) if idx % 2 else (N & ~1)
+    ans, used = [], set()
+    for j, c in enumerate(classes):
+        a = {'cls': c, 'dseed': rng.randint(0, 10**6), 'n': (2 * N + 3 if N == 64 else 4 * N) + rng.randint(0, 7)}
+        while True:
+            if (idx + j) % 2 == 0:
+                u, dt, rate = rng.choice(INTERVALS)
+                a.update(unit=u, interval=dt, Fs=f2x(float(rate)))
+            else:
+                a.pop('interval', None)
+                a.update(unit=rng.choice(['s', 'ms', 'us']), Fs=f2x(float(rng.choice(FS_VALUES))))
+            if x2f(a['Fs']) not in used:
+                break
+        used.add(x2f(a['Fs']))
+        ans.append(a)
+
+    def rd(k):          # how analyzer k's frequency vector is read: SpectralAnalyzer has two Welch results with an axis
+        if classes[k] != 'S':
+            return ['f%d' % k]
+        return [['f%d' % k], ['c%d' % k], ['f%d' % k, 'c%d' % k], ['c%d' % k, 'f%d' % k]][(idx // 2 + k) % 4]
+    K = len(classes)
+    if pattern == 'ab-BA':
+        ev = ['n%d' % k for k in range(K)] + [e for k in reversed(range(K)) for e in rd(k)]
+    elif pattern == 'ab-AB':
+        ev = ['n%d' % k for k in range(K)] + [e for k in range(K) for e in rd(k)]
+    else:               # each one read before the next one is built; the earlier ones are read again at the end
+        ev = [e for k in range(K) for e in ['n%d' % k] + rd(k)] + [e for k in range(K - 1) for e in rd(k)]
+    return {'call': 'two', 'mode': mode, 'N': N, 'n': max(a['n'] for a in ans), 'ans': ans, 'events': ev}
+
+
 TWO_SIDED = [c for c in CALLS if CALLS[c][1] in ('two', 'shift')]
 ARANGE_LENGTHS = [49, 61, 98, 103, 121, 122]        # lengths at which a float-step arange(0, Fs, Fs/N) emits N+1 points
 ARANGE_RATES = [1.0, 2 * math.pi, 1000.0]
@@ -759,6 +1112,34 @@ def cases(rng, tier, seed):
                     for order in RT_ORDER:
                         i += 1
                         out.append(draw(lambda: gen_retarget(rng, name, tier, how, pre, order, i + r)))
+    # read histories of one analyzer: every analyzer x every OTHER result its class offers (found by introspection) x
+    # {hand out, read the other, hand out again | the other first}; plus all other results in a drawn order, and the
+    # same followed by reset() and a second round.  Every vector handed out is inspected AT THE END.
+    for r in range(rep):
+        i = 0
+        for name in ANALYZER:
+            hs = [(ev, o) for o in others_of(name) for ev in HIST_EVENTS] + [('FOF', 'ALL')]
+            if RT_HOWS[name] != ['none']:                  # the class has reset()
+                hs.append(('FOFRFOF', 'ALL'))
+            for ev, o in hs:
+                for dc in ((True, False) if (name in BANDED or CALLS[name][1] == 'keep') else (True,)):
+                    i += 1
+                    out.append(draw(lambda: gen_history(rng, name, tier, ev, o, i + r, dc)))
+    # several live analyzers: every ordered pair of classes x how they get their method dict x order of events
+    # (thorough: also triples)
+    for r in range(rep):
+        i = 0
+        for mode in TWO_MODES:
+            for ca in TWO_CLS:
+                for cb in TWO_CLS:
+                    for pat in TWO_PATTERNS:
+                        i += 1
+                        out.append(make_case(gen_two(rng, tier, mode, [ca, cb], pat, i + r)))
+        if tier == 'thorough':
+            for mode in TWO_MODES:
+                for _ in range(12):
+                    i += 1
+                    out.append(make_case(gen_two(rng, tier, mode, [rng.choice('CPES') for _k in range(3)], rng.choice(TWO_PATTERNS), i + r)))
     return out
 
 
@@ -780,6 +1161,12 @@ CORPUS = [
     # band below the first non-zero bin: only DC survives (seeded change C05-1: an empty slice [1:0] kept everything)
     {'call': 'FilterAnalyzer.filtered_fourier', 'n': 25, 'N': 25, 'Fs': f2x(0.5), 'unit': 's', 'lb': f2x(0.0), 'ub': f2x(0.015), 'dseed': 0},
     {'call': 'FilterAnalyzer.filtered_fourier', 'n': 16, 'N': 16, 'Fs': f2x(8.0), 'unit': 'ms', 'lb': f2x(0.0), 'ub': f2x(0.3), 'dseed': 0},
+    # two CoherenceAnalyzers given ONE caller's method dict, inputs at 100 Hz and 250 Hz (recorded finding: the second reports 0..50 Hz)
+    {'call': 'two', 'mode': 'shared', 'N': 64, 'n': 256, 'events': ['n0', 'n1', 'f1', 'f0'],
+     'ans': [{'cls': 'C', 'n': 256, 'dseed': 1, 'Fs': f2x(100.0), 'unit': 's'}, {'cls': 'C', 'n': 256, 'dseed': 2, 'Fs': f2x(250.0), 'unit': 'ms', 'interval': 4.0}]},
+    # … and the same experiment without any caller's dict
+    {'call': 'two', 'mode': 'none', 'N': 64, 'n': 256, 'events': ['n0', 'n1', 'f1', 'f0'],
+     'ans': [{'cls': 'C', 'n': 256, 'dseed': 1, 'Fs': f2x(100.0), 'unit': 's'}, {'cls': 'C', 'n': 256, 'dseed': 2, 'Fs': f2x(250.0), 'unit': 'ms', 'interval': 4.0}]},
 ]
 
 
@@ -804,7 +1191,7 @@ def oracle(rng, tier, seed, focus, cases):
         for key, what in js:
             fails.append(fail_of(m, key, what, c))
         # GrangerAnalyzer: one frequency per causality value
-        if m['call'] == 'GrangerAnalyzer.frequencies' and not isinstance(res, str) and res[1] is not None:
+        if m['call'] == 'GrangerAnalyzer.frequencies' and not isinstance(res, str) and res[1] is not None and not m.get('hist'):
             if len(np.atleast_1d(res[1])) != len(np.atleast_1d(res[0])):
                 fails.append(fail_of(m, 'GrangerAnalyzer.frequencies/%s/length' % parity(m), 'frequencies and causality values differ in length', c))
     # keep the smallest input per key (stable, minimal replay)
